@@ -1,3 +1,4 @@
+import OcppProps.C10Fine
 import OcppProps.CDSim
 import OcppModel.Expected
 import OcppGen.Skeletons
@@ -86,5 +87,21 @@ example : (history (CD.init 0) [.start, .send "a", .disconnect, .send "b", .send
 theorem skel_wsHandleReconnection : Gen.Skeletons.wsHandleReconnection = Ocpp.Expected.wsHandleReconnection := by decide
 theorem skel_wsClientConnect : Gen.Skeletons.wsClientConnect = Ocpp.Expected.wsClientConnect := by decide
 theorem skel_wsCleanup : Gen.Skeletons.wsCleanup = Ocpp.Expected.wsCleanup := by decide
+
+/-! ### Below quiescence: the websocket client reports the loss of a connection only after that connection was announced
+(`OcppProps/C10Fine.lean`, small-step model `Ocpp.WsCliAnn` after /repo 516d27f): ocppj.Client's `Pause` always follows the
+`Resume` of the same connection -/
+
+theorem fine_notifications_ordered (ls : List Ocpp.WsCliAnn.Label) (s : Ocpp.WsCliAnn.St) (h : Ocpp.WsCliAnn.runL {} ls = some s) :
+    (Ocpp.WsCliAnn.ordOf s.log).isSome = true := C10Fine.notifications_ordered ls s h
+
+/-- before 516d27f the loss of the new connection could be reported while its reconnected handler was still running
+    (monitor `c10_flap` on the real client: dispatcher resumed while the link was down) -/
+theorem fine_old_disc_overtakes :
+    (Ocpp.WsCliAnn.runL { waitAnn := false } [.lose, .report, .annBegin, .lose, .report]).map (fun s => (s.log, Ocpp.WsCliAnn.ordOf s.log)) =
+      some ([.disc 0, .annBegin 1, .disc 1], none) := C10Fine.old_disc_overtakes
+
+example : (Ocpp.WsCliAnn.runL {} [.lose, .report, .annBegin, .lose, .annEnd, .report]).map (·.log) =
+    some [.disc 0, .annBegin 1, .annEnd 1, .disc 1] := by decide
 
 end C10
